@@ -397,6 +397,10 @@ def normalize(scn, raw):
             out.append({"e": "Quiescent"})
         elif n == "timeout":
             out.append({"e": "Timeout", "what": str(e.get("what", "")), "p": str(e.get("p", ""))})
+    if any(x["e"] == "Timeout" and x["what"] == "driver" for x in out) and not any(x["e"] == "Quiescent" for x in out):
+        # the script could not be played to its end within the scenario's time limit (many
+        # seconds): what has not happened by now is judged as it would be at quiescence
+        out.append({"e": "Quiescent"})
     return c, out
 
 
